@@ -224,10 +224,17 @@ Crafted ==
 (* dimensions in which it differs from the default), so the cases are kept   *)
 (* as a concatenation of sequences: TLC's UNION is quadratic in the size of  *)
 (* its result.                                                               *)
-RECURSIVE Concat(_)
-Concat(ss) == IF ss = <<>> THEN <<>> ELSE SX!SetToSeq(ShapesDev(ss[1])) \o Concat(Tail(ss))
+(* balanced recursion: a linear one is ~5000 Java frames deep in the thorough  *)
+(* tier, and TLC silently gives up caching a constant whose evaluation        *)
+(* overflows the stack (it is then re-evaluated at every use).                *)
+DevSeq == SX!SetToSeq(DevSets)
+RECURSIVE ConcatRange(_, _)
+ConcatRange(lo, hi) ==
+  IF lo > hi THEN <<>>
+  ELSE IF lo = hi THEN SX!SetToSeq(ShapesDev(DevSeq[lo]))
+  ELSE LET mid == (lo + hi) \div 2 IN ConcatRange(lo, mid) \o ConcatRange(mid + 1, hi)
 
-BatchSeq == Concat(SX!SetToSeq(DevSets)) \o SX!SetToSeq(Crafted)
+BatchSeq == ConcatRange(1, Len(DevSeq)) \o SX!SetToSeq(Crafted)
 AmtSeq   == SX!SetToSeq(AmtCases)
 NA == Len(AmtSeq)
 NB == Len(BatchSeq)
